@@ -17,6 +17,10 @@ pub struct C16;
 #[derive(Serialize, Deserialize, Debug, Clone)]
 pub struct GCase {
     pub ag: AG,
+    /// text mode: a rendered grammar of any kind (Eco with implicit tokens included), judged
+    /// through the implementation's own grammar object: every query clause except the closure
+    #[serde(default)]
+    pub text: Option<(crate::genr::yrender::YKind, String)>,
 }
 
 pub fn table_opts(tier: Tier) -> GenOpts {
@@ -103,6 +107,126 @@ fn pidx_key(b: &Built<u32>, p: PIdx<u32>) -> (usize, usize) {
     (usize::from(b.grm.prod_to_rule(p)), b.grm.prod(p).len())
 }
 
+/// Text mode: the query clauses of C16 on a grammar of any kind, through the implementation's own
+/// grammar object (no abstract grammar is needed for them).
+fn evaluate_text(kind: crate::genr::yrender::YKind, text: &str) -> Outcome {
+    use cfgrammar::yacc::YaccGrammar;
+    let mut o = Outcome::new();
+    o.evals = 1;
+    o.class(&format!("text-mode:{kind:?}"));
+    let grm = match YaccGrammar::<u32>::new_with_storaget(crate::props::c10::yacc_kind(kind), text) {
+        Ok(g) => g,
+        Err(e) => {
+            o.fail("harness", "C16/grammar-rejected", format!("{e:?}\n{text}"));
+            return o;
+        }
+    };
+    let (sg, st) = match lrtable::from_yacc(&grm, lrtable::Minimiser::Pager) {
+        Ok(x) => x,
+        Err(_) => {
+            o.discard("accept-reduce-conflict");
+            return o;
+        }
+    };
+    if grm.implicit_rule().is_some() {
+        o.class("text-mode:implicit-tokens");
+    }
+    if sg.start_state() != st.start_state() {
+        o.fail("wrong", "C16/start-state", "graph and table disagree on the start state");
+        return o;
+    }
+    let nstates = usize::from(sg.all_states_len());
+    let mut seen = vec![false; nstates];
+    let mut todo = vec![sg.start_state()];
+    seen[usize::from(sg.start_state())] = true;
+    while let Some(s) = todo.pop() {
+        for (_, t) in sg.edges(s).iter() {
+            if usize::from(*t) >= nstates {
+                o.fail("wrong", "C16/edge-target-out-of-range", format!("edge to state {}, the graph has {nstates} states\n{text}", usize::from(*t)));
+                return o;
+            }
+            if !seen[usize::from(*t)] {
+                seen[usize::from(*t)] = true;
+                todo.push(*t);
+            }
+        }
+    }
+    if let Some(u) = seen.iter().position(|x| !*x) {
+        o.fail("wrong", "C16/unreachable-state", format!("state {u} unreachable\n{text}"));
+        return o;
+    }
+    o.evals = 0;
+    for s in sg.iter_stidxs() {
+        o.evals += 1;
+        let si = usize::from(s);
+        let mut non_error = BTreeSet::new();
+        let mut shifts = BTreeSet::new();
+        let mut reduces: BTreeSet<usize> = BTreeSet::new();
+        let mut has_accept = false;
+        for t in grm.iter_tidxs() {
+            match st.action(s, t) {
+                Action::Error => {}
+                Action::Shift(x) => {
+                    non_error.insert(usize::from(t));
+                    shifts.insert(usize::from(t));
+                    if sg.edge(s, Symbol::Token(t)) != Some(x) {
+                        o.fail("wrong", "C16/shift-target-vs-edge", format!("state {si} token {}: Shift({}) but edge is {:?}\n{text}", usize::from(t), usize::from(x), sg.edge(s, Symbol::Token(t)).map(usize::from)));
+                        return o;
+                    }
+                }
+                Action::Reduce(p) => {
+                    non_error.insert(usize::from(t));
+                    reduces.insert(usize::from(p));
+                }
+                Action::Accept => {
+                    non_error.insert(usize::from(t));
+                    has_accept = true;
+                }
+            }
+        }
+        let sa: BTreeSet<usize> = st.state_actions(s).map(usize::from).collect();
+        if sa != non_error {
+            o.fail("wrong", "C16/state_actions", format!("state {si}: state_actions = {sa:?}, tokens with a non-error action = {non_error:?}\n{text}"));
+            return o;
+        }
+        let ss: BTreeSet<usize> = st.state_shifts(s).map(usize::from).collect();
+        if ss != shifts {
+            o.fail("wrong", "C16/state_shifts", format!("state {si}: state_shifts = {ss:?}, tokens whose action is a shift = {shifts:?}\n{text}"));
+            return o;
+        }
+        for r in grm.iter_rules() {
+            let (g, e) = (st.goto(s, r), sg.edge(s, Symbol::Rule(r)));
+            if g != e {
+                o.fail("wrong", "C16/goto-vs-edge", format!("state {si} rule {}: goto {:?}, edge {:?}\n{text}", usize::from(r), g.map(usize::from), e.map(usize::from)));
+                return o;
+            }
+        }
+        let key = |p: PIdx<u32>| (usize::from(grm.prod_to_rule(p)), grm.prod(p).len());
+        let cr: Vec<PIdx<u32>> = st.core_reduces(s).collect();
+        let keys: BTreeSet<(usize, usize)> = reduces.iter().map(|p| key(PIdx(*p as u32))).collect();
+        let mut seen_keys: BTreeMap<(usize, usize), usize> = BTreeMap::new();
+        for p in &cr {
+            if !reduces.contains(&usize::from(*p)) {
+                o.fail("wrong", "C16/core_reduces/not-a-reduce-action", format!("state {si}: core reduce {} is not a reduce action of the state\n{text}", usize::from(*p)));
+                return o;
+            }
+            *seen_keys.entry(key(*p)).or_default() += 1;
+        }
+        if seen_keys.keys().cloned().collect::<BTreeSet<_>>() != keys || seen_keys.values().any(|n| *n != 1) {
+            o.fail("wrong", "C16/core_reduces/keys", format!("state {si}: core_reduces {:?} vs (rule,len) pairs of the reductions {keys:?}\n{text}", cr.iter().map(|p| usize::from(*p)).collect::<Vec<_>>()));
+            return o;
+        }
+        if !non_error.is_empty() {
+            let expect = !has_accept && shifts.is_empty() && keys.len() == 1;
+            if st.reduce_only_state(s) != expect {
+                o.fail("wrong", "C16/reduce_only_state", format!("state {si}: reduce_only_state = {}, expected {expect}\n{text}", !expect));
+                return o;
+            }
+        }
+    }
+    o
+}
+
 impl Prop for C16 {
     fn id(&self) -> &'static str {
         "C16"
@@ -118,11 +242,16 @@ impl Prop for C16 {
     }
     fn decode(&self, choices: &[u32], tier: Tier) -> Value {
         let mut ch = Choices::new(choices);
+        if ch.chance(1, 8) {
+            let c = crate::props::c10::gen_case(&mut ch, tier);
+            let text = if c.entry == 1 { c.text[crate::props::c10::header_for(c.kind).len()..].to_string() } else { c.text };
+            return serde_json::to_value(GCase { ag: c.ag, text: Some((c.kind, text)) }).unwrap();
+        }
         let ag = gen_grammar(&mut ch, &table_opts(tier));
-        serde_json::to_value(GCase { ag }).unwrap()
+        serde_json::to_value(GCase { ag, text: None }).unwrap()
     }
     fn rule(&self) -> String {
-        "AG from strata expr (50%, random %left/%right/%nonassoc lines and %prec), rand (with random precedence lines, cycles and unproductive rules allowed), lr1, repo. Oracle: for every state x token x rule the public queries are cross-checked (state_actions/state_shifts vs action, Shift target vs edge, goto vs edge, core_reduces, reduce_only_state, reachability, start_state, closed_state == reference LR(1) closure of core_state). Evaluation = one state of one grammar. Non-trivial: the grammar's table has a cell changed by resolution (reduce replaced by shift through precedence, or removed by %nonassoc) or a state with two reductions of the same (rule,length); distinct by hash(grammar).".into()
+        "AG from strata expr (50%, random %left/%right/%nonassoc lines and %prec), rand (with random precedence lines, cycles and unproductive rules allowed), lr1, repo. 1/8 of the cases are C10 renderings of any kind (Eco with %implicit_tokens included) judged through the implementation's own grammar object (all clauses but the closure). Oracle: for every state x token x rule the public queries are cross-checked (state_actions/state_shifts vs action, Shift target vs edge, goto vs edge, core_reduces, reduce_only_state, reachability, start_state, closed_state == reference LR(1) closure of core_state). Evaluation = one state of one grammar. Non-trivial: the grammar's table has a cell changed by resolution (reduce replaced by shift through precedence, or removed by %nonassoc) or a state with two reductions of the same (rule,length); distinct by hash(grammar).".into()
     }
     fn assumptions(&self) -> Vec<String> {
         vec!["reference LR(1) closure (FIRST/nullable from refimpl::analyses) trusted".into()]
@@ -134,6 +263,7 @@ impl Prop for C16 {
             "with-conflicts",
             "conflict-free",
             "reduce-only-state",
+            "text-mode:implicit-tokens",
         ]
     }
     fn evaluate(&self, case: &Value) -> Outcome {
@@ -141,6 +271,9 @@ impl Prop for C16 {
         let mut o = Outcome::new();
         let ag = &case.ag;
         o.evals = 1;
+        if let Some((kind, text)) = &case.text {
+            return evaluate_text(*kind, text);
+        }
         let b = match build(ag) {
             Ok(b) => b,
             Err(BuildErr::Grammar(e)) => {
